@@ -36,7 +36,12 @@ theorem trace_post : ∀ a : Ast, trace v it (post a) = trace v it a
   | .leaf n => by simp [post]
   | .null => by simp [post]
   | .ifThen c t => by simp [post, trace, trace_post t]
-  | .loop x b => by simp [post, trace, trace_post b]
+  | .loop x b => by
+    have hb := trace_post b
+    simp only [post]
+    cases h : isNull (post b) <;> simp only [trace]
+    · rw [hb]
+    · rw [← hb, trace_of_isNull v it h]; simp
   | .ite c t e => by
     have ht := trace_post t
     have he := trace_post e
